@@ -1140,12 +1140,52 @@ func c17GenB64Case(t *rapid.T) c17B64Case {
 	}
 }
 
+// c17EnumCodePoints: every Unicode scalar value of the Basic Multilingual Plane (thorough: of every
+// plane; quick: a stride through the astral planes) substituted for one character of a valid server
+// name, user ID (both grammars) and room ID - in the host, the localpart and the opaque part. The
+// reference recognisers decide; what matters is that no character outside the ASCII classes (case
+// folding look-alikes such as U+212A KELVIN SIGN or U+0130, full-width digits, other scripts' digits)
+// is taken for a letter or digit of the grammar.
+func c17EnumCodePoints(size, shard, nshards int, emit func(c17IDCase)) {
+	idx := 0
+	one := func(r rune) {
+		idx++
+		if (idx-1)%nshards != shard {
+			return
+		}
+		c := string(r)
+		emit(c17IDCase{Kind: "server", S: vfBytes(c + "de.example"), Gen: "codepoint/host-first"})
+		emit(c17IDCase{Kind: "server", S: vfBytes("ab" + c + ".example:8448"), Gen: "codepoint/host-inner"})
+		emit(c17IDCase{Kind: "server", S: vfBytes("example.org:8" + c + "48"), Gen: "codepoint/port"})
+		emit(c17IDCase{Kind: "user", S: vfBytes("@a" + c + "b:example.org"), Gen: "codepoint/localpart"})
+		emit(c17IDCase{Kind: "user", S: vfBytes("@a" + c + "b:example.org"), Historical: true, Gen: "codepoint/localpart-historical"})
+		emit(c17IDCase{Kind: "user", S: vfBytes("@ab:ex" + c + "mple.org"), Gen: "codepoint/user-domain"})
+		emit(c17IDCase{Kind: "room", S: vfBytes("!a" + c + "b:example.org"), Gen: "codepoint/room-opaque"})
+		emit(c17IDCase{Kind: "room", S: vfBytes("!ab:ex" + c + "mple.org"), Gen: "codepoint/room-domain"})
+		emit(c17IDCase{Kind: "room", S: vfBytes("!" + c + strings.Repeat("A", 42)), Gen: "codepoint/room-domainless"})
+	}
+	for r := rune(0); r <= 0xffff; r++ {
+		if r >= 0xd800 && r <= 0xdfff {
+			continue
+		}
+		one(r)
+	}
+	step := rune(0x101)
+	if size > 1 {
+		step = 1
+	}
+	for r := rune(0x10000); r <= 0x10ffff; r += step {
+		one(r)
+	}
+}
+
 func init() {
 	rule := "non-trivial = the string was produced from the grammar (a valid identifier), or differs from a valid identifier by one edit (one part dropped/emptied/replaced, one byte deleted/inserted/substituted, port moved across 65535), or sits on a length boundary (254/255/256, 42/43/44); arbitrary byte strings are judged but not counted. base64: a non-empty byte value, or a canonical unpadded text. distinct = distinct Case JSON."
 	vfRapid("C17/servername", rule, 15000, 350000, 8, c17GenServerCase, c17CheckID)
 	vfRapid("C17/userid", rule, 15000, 350000, 8, c17GenUserCase, c17CheckID)
 	vfRapid("C17/roomid", rule, 15000, 350000, 8, c17GenRoomCase, c17CheckID)
 	vfRapid("C17/base64", rule, 8000, 200000, 8, c17GenB64Case, c17CheckB64)
+	vfEnum("C17/codepoint-sweep", "every case: one character of a valid identifier is replaced by a Unicode scalar value (whole BMP, astral planes by stride / completely in the thorough tier) in host, port, localpart, opaque part; distinct = distinct Case JSON", 1, 2, 16, c17EnumCodePoints, c17CheckID)
 }
 
 // FuzzVF_C17_ids is the coverage-guided byte-level target for all four grammars (thorough tier):
